@@ -1,4 +1,6 @@
 """C11 — gcd, lcm, egcd, crt (rlib/gcd)."""
+import math
+
 ID = "C11"
 CRATE = "c11"
 COQ_DIR = "C11"
@@ -35,16 +37,39 @@ THEOREMS = [
     ("c11_fits_general_crt", "forall M a1 m1 a2 m2 : Z, 1 <= m1 <= M -> 1 <= m2 <= M -> 0 <= a1 < m1 -> 0 <= a2 < m2 -> "
                              "Forall (fun v => Z.abs v <= M * M + M) (snd (crt_t a1 m1 a2 m2))"),
 ]
-RULE = ("exhaustive cube |a|,|b|,|c| <= K (K=6 quick, 12 thorough) for gcd/lcm/egcd, all (m1,m2) <= K with all reduced "
-        "residues for crt, plus boundary-biased samples up to 2^20 (zeros, negatives, equal operands, multiples, "
-        "coprime neighbours, powers of two) over i32/i64/i128/isize/u32/u64/u128, plus gcd/lcm over the whole range (top bit set included) of u8/u16/u32/u64/u128/usize/i8/i16; non-trivial = neither operand zero and |a| != |b|")
-TRUSTED = ["executor harness/crates/c11 (calls rlib_gcd::{gcd,lcm,egcd,crt} and prints the result)",
-           "checks/c11.py (case generator, Coq term printer)"]
-ASSUMPTIONS = ["integers modelled as unbounded Z: the property excludes overflowing magnitudes; sampled operands stay <= 2^20 (i32: 2^10 for egcd/crt); gcd, and lcm when it fits, are also run on full-range operands of the narrow and unsigned types, where no intermediate can overflow",
-               "Rust / and % on signed integers are Z.quot and Z.rem"]
+RULE = ("families (all cases pass through the same four Coq case constructors): "
+        "base = exhaustive cube |a|,|b|,|c| <= K (K=6 quick, 12 thorough) for gcd/lcm/egcd and all (m1,m2) <= K with all reduced "
+        "residues for crt on i64, boundary-biased samples up to 2^20 over i32/i64/i128/isize/u32/u64/u128, gcd (lcm when it fits) "
+        "over the whole range of all 12 integer types (MIN of signed types excluded); "
+        "edge = egcd/crt/lcm/gcd on all 6 signed types with operands at and just below isqrt(MAX) (the box for which "
+        "c11_fits_general(_crt) proves that no intermediate overflows: 11/10 for i8 ... 1.3e19 for i128), primes, halves, mixes "
+        "with small values; narrow_cube = the cube again on i8 and i16 (thorough: radius 12 filtered by the reference trace); "
+        "traced = egcd/crt over the whole range of every signed type, keeping the inputs for which no intermediate of the "
+        "reference algorithm (Python transcription of Trace.v) leaves the type - operands far above isqrt(MAX), non-coprime "
+        "moduli whose product overflows but whose lcm fits, huge/tiny moduli; wide = gcd/lcm on all 12 types with log-uniform "
+        "bit lengths from a multi-word generator, constants 2^k, 2^k+-1 (k = 7,8,15,16,31,32,33,63,64,65,127), MAX, MAX-1, "
+        "-MAX, two-word operands with two-word common factors, lcm(MAX//k, k); fib = consecutive Fibonacci numbers (maximal "
+        "number of division steps / recursion depth: up to 184) for gcd on all 12 types and egcd/crt on the signed ones; "
+        "uegcd = egcd on the 6 unsigned types where x0 - q*y0 never goes below zero; zero = lcm(0,0), egcd(0,0,c), gcd(0,0) on "
+        "all 12 types; plus (extra, Python oracle) ALL u8 and i8 pairs through gcd/lcm, thorough: i8 egcd with |c| <= 8 and "
+        "i8 crt over all moduli pairs; non-trivial = neither operand zero and |a| != |b|")
+TRUSTED = ["executor harness/crates/c11 (calls rlib_gcd::{gcd,lcm,egcd,crt} on the 12 primitive integer types and prints the result)",
+           "checks/c11.py (case generator incl. the Python transcription of the reference trace used to keep cases inside the "
+           "contract, Coq term printer, 8-bit sweep oracle)"]
+ASSUMPTIONS = ["integers modelled as unbounded Z: the property excludes overflowing magnitudes. Cases are kept inside the contract "
+               "either by theorem (operands <= isqrt(MAX): c11_fits_general, c11_fits_general_crt) or by running the reference "
+               "algorithm in Python and checking that every intermediate value fits the type; a change of the code that makes a "
+               "previously fitting input overflow is reported",
+               "Rust / and % on signed integers are Z.quot and Z.rem",
+               "isize/usize are exercised as 64-bit types (host build only)"]
 
 SIGNED = ["i64", "i32", "i128", "isize"]
 UNSIGNED = ["u64", "u32", "u128"]
+W = {"u8": 8, "u16": 16, "u32": 32, "u64": 64, "u128": 128, "usize": 64,
+     "i8": 8, "i16": 16, "i32": 32, "i64": 64, "i128": 128, "isize": 64}
+ALL_SIGNED = ["i8", "i16", "i32", "i64", "i128", "isize"]
+ALL_UNSIGNED = ["u8", "u16", "u32", "u64", "u128", "usize"]
+FAMILY_COUNTS = {}          # tier -> {family: number of generated cases}; reported by extra()
 
 
 def z(v):
@@ -86,6 +111,182 @@ def classify(c, obs):
     return "%s/%s/%s" % (c["op"], c["ty"], "panic" if obs == "P" else ("none" if obs == "R none" else "value"))
 
 
+# ----------------------------------------------------------------------------- integer types and the reference trace
+def tmax(ty):
+    return (1 << W[ty]) - 1 if ty[0] == "u" else (1 << (W[ty] - 1)) - 1
+
+
+def tlo(ty):
+    """smallest value of the contract: MIN of a signed type is outside it (abs overflows)"""
+    return 0 if ty[0] == "u" else -tmax(ty)
+
+
+def fits(vals, ty):
+    lo, hi = tlo(ty), tmax(ty)
+    return all(lo <= v <= hi for v in vals)
+
+
+def tq(a, b):
+    """Rust `/` (truncating)"""
+    q = abs(a) // abs(b)
+    return q if (a < 0) == (b < 0) else -q
+
+
+def trem(a, b):
+    """Rust `%`"""
+    return a - b * tq(a, b)
+
+
+def gcdpy(a, b):
+    a, b = abs(a), abs(b)
+    while b:
+        a, b = b, a % b
+    return a
+
+
+def gcd_trace(a, b):
+    """(result, every intermediate value) of rlib_gcd::gcd as written: into_abs on both, then the remainders"""
+    a, b = abs(a), abs(b)
+    vals = [a, b]
+    while b:
+        a = a % b
+        vals.append(a)
+        a, b = b, a
+    return a, vals
+
+
+def lcm_trace(a, b):
+    g, vals = gcd_trace(a, b)
+    if g == 0:
+        return "P", vals
+    q = abs(a) // g
+    return q * abs(b), vals + [q, q * abs(b)]
+
+
+def egcd_trace(a, b, c):
+    """(result, every intermediate value) of rlib_gcd::egcd as written (the same list as C11/Trace.v egcd_t):
+    arguments, remainders and quotients of the descent, c % b0, c / b0, every q*y0 and x0 - q*y0 of the ascent.
+    result: "P" | None | (x, y)"""
+    vals = [a, b, c]
+    qs = []
+    while a != 0:
+        r, q = trem(b, a), tq(b, a)
+        vals += [r, q]
+        qs.append(q)
+        a, b = r, a
+    if b == 0:
+        return "P", vals
+    r = trem(c, b)
+    vals.append(r)
+    if r != 0:
+        return None, vals
+    x, y = 0, tq(c, b)
+    vals.append(y)
+    for q in reversed(qs):
+        pr = q * x
+        x, y = y - pr, x
+        vals += [pr, x]
+    return (x, y), vals
+
+
+def crt_trace(a1, m1, a2, m2):
+    g, vals = gcd_trace(m1, m2)
+    vals = vals + [-m2, a2 - a1]
+    res, v2 = egcd_trace(m1, -m2, a2 - a1)
+    vals += v2
+    if res == "P" or res is None:
+        return res, vals
+    if g == 0:
+        return "P", vals
+    m2r = tq(m2, g)
+    vals.append(m2r)
+    if m2r == 0:
+        return "P", vals
+    t1 = trem(res[0], m2r)
+    t2 = t1 + m2r
+    t3 = trem(t2, m2r)
+    t4 = m1 * t3
+    t5 = t4 + a1
+    return t5, vals + [t1, t2, t3, t4, t5]
+
+
+def trace_of(c):
+    op, a = c["op"], c["args"]
+    if op == "gcd":
+        return gcd_trace(*a)
+    if op == "lcm":
+        return lcm_trace(*a)
+    if op == "egcd":
+        return egcd_trace(*a)
+    return crt_trace(*a)
+
+
+def in_contract(c):
+    """no intermediate value of the reference algorithm leaves the integer type (the property's quantifier)"""
+    res, vals = trace_of(c)
+    return res != "P" and fits(list(c["args"]) + vals, c["ty"])
+
+
+# ----------------------------------------------------------------------------- random helpers (Rng.below is 64 bit)
+def wbits(rng, n):
+    """n uniformly random bits, from as many 64-bit words as needed"""
+    v, k = 0, 0
+    while k < n:
+        v = (v << 64) | rng.next()
+        k += 64
+    return v >> (k - n) if n > 0 else 0
+
+
+def wbelow(rng, n):
+    """uniform in [0, n) for n of any size"""
+    return wbits(rng, n.bit_length() + 64) % n if n > 0 else 0
+
+
+def logu(rng, top):
+    """log-uniform in [0, top]: a uniformly chosen bit length, then a uniform value of that length"""
+    L = rng.range(0, top.bit_length())
+    if L == 0:
+        return 0
+    v = (1 << (L - 1)) | wbits(rng, L - 1)
+    return v if v <= top else top - wbelow(rng, min(top, 1 << 16) + 1)
+
+
+def sgn(rng, v, signed=True):
+    return -v if signed and rng.chance(1, 2) else v
+
+
+_MR = [2, 3, 5, 7, 11, 13, 17, 19, 23, 29, 31, 37, 41]
+
+
+def is_prime(n):
+    if n < 2:
+        return False
+    for p in _MR:
+        if n % p == 0:
+            return n == p
+    d, s = n - 1, 0
+    while d % 2 == 0:
+        d //= 2
+        s += 1
+    for a in _MR:            # deterministic below 3.3e24
+        x = pow(a, d, n)
+        if x in (1, n - 1):
+            continue
+        for _ in range(s - 1):
+            x = x * x % n
+            if x == n - 1:
+                break
+        else:
+            return False
+    return True
+
+
+def prev_prime(n):
+    while n > 2 and not is_prime(n):
+        n -= 1
+    return max(n, 2)
+
+
 def interesting(rng, bound, signed):
     k = rng.below(8)
     if k == 0:
@@ -99,7 +300,18 @@ def interesting(rng, bound, signed):
     return v
 
 
-def generate(rng, tier):
+def compatible_residue(rng, a1, m1, m2):
+    g = gcdpy(m1, m2)
+    return (a1 % g + g * wbelow(rng, max(1, m2 // g))) % m2
+
+
+def residue(rng, m):
+    k = rng.below(6)
+    return 0 if k == 0 else (m - 1 if k == 1 else wbelow(rng, m))
+
+
+# ----------------------------------------------------------------------------- the original families
+def fam_base(rng, tier):
     cases = []
     K = 6 if tier == "quick" else 12
     # exhaustive small cube on i64
@@ -119,13 +331,12 @@ def generate(rng, tier):
     # the division-by-zero corner (outside the property, modelled as Panic): both sides must panic
     cases.append({"ty": "i64", "op": "lcm", "args": [0, 0]})
     cases.append({"ty": "i64", "op": "egcd", "args": [0, 0, 5]})
-    # narrow and unsigned instantiations over their WHOLE range (gcd never overflows; lcm only when it fits):
-    # operands with the top bit set are where an unsigned type differs from a signed one of the same width
-    BITS = {"u8": 8, "u16": 16, "u32": 32, "u64": 64, "u128": 128, "usize": 64, "i8": 8, "i16": 16}
+    # every instantiation over its WHOLE range (gcd never overflows; lcm only when it fits; MIN of the signed types
+    # is outside the contract): operands with the top bit set are where an unsigned type differs from a signed one
     per = 40 if tier == "quick" else 1200
-    for ty, w in BITS.items():
+    for ty in ["u8", "u16", "u32", "u64", "u128", "usize", "i8", "i16", "i32", "i64", "i128", "isize"]:
         unsigned = ty[0] == "u"
-        top = (1 << w) - 1 if unsigned else (1 << (w - 1)) - 1
+        top = tmax(ty)
         def pick():
             k = rng.below(6)
             if k == 0:
@@ -134,7 +345,7 @@ def generate(rng, tier):
                 return rng.range(0, 40)
             if k == 2:
                 return top - rng.range(0, 40)
-            return rng.range(0, top)
+            return wbelow(rng, top + 1)
         for _ in range(per):
             a, b = pick(), pick()
             if rng.chance(1, 3) and a != 0:
@@ -181,7 +392,7 @@ def generate(rng, tier):
             b = 1
         if op == "egcd":
             if not signed:
-                # unsigned egcd underflows on x0 - q*y0; the property quantifies the signed solver only
+                # unsigned egcd underflows on x0 - q*y0 for general operands (see fam_uegcd for those that do not)
                 ty = rng.choice(SIGNED)
                 bound = (1 << 10) if ty == "i32" else (1 << 20)
                 a, b = max(-bound, min(bound, a)), max(-bound, min(bound, b))
@@ -195,16 +406,360 @@ def generate(rng, tier):
     return cases
 
 
-def gcdpy(a, b):
-    a, b = abs(a), abs(b)
-    while b:
-        a, b = b, a % b
-    return a
+# ----------------------------------------------------------------------------- G1: the edge of the contract
+def edge_bounds(ty):
+    """Me: largest M with M*M <= MAX (egcd, lcm: c11_fits_general); Mc: largest M with M*M + M <= MAX (crt:
+    c11_fits_general_crt).  Operands up to these are inside the contract BY THEOREM."""
+    mx = tmax(ty)
+    me = math.isqrt(mx)
+    mc = me
+    while mc * mc + mc > mx:
+        mc -= 1
+    return me, mc
+
+
+_PRIMES = {}
+
+
+def edge_pick(rng, M):
+    k = rng.below(10)
+    if k <= 2:
+        return max(0, M - rng.below(min(41, M + 1)))
+    if k == 3:
+        return max(0, rng.choice([M, M - 1, M - 2, M // 2, M // 2 + 1, M // 2 - 1]))
+    if k == 4:
+        n = max(2, M - rng.below(min(200, M)))
+        if n not in _PRIMES:
+            _PRIMES[n] = prev_prime(n)
+        return _PRIMES[n]
+    if k == 5:
+        return rng.range(0, min(30, M))
+    if k == 6:
+        return M // rng.range(2, 9)
+    return wbelow(rng, M + 1)
+
+
+def fam_edge(rng, tier):
+    """operands at and just below isqrt(MAX) of every signed type: the largest box for which the proved bound on the
+    model's intermediates (M*M, M*M+M) guarantees that nothing overflows"""
+    cases = []
+    ne, nc, nl, ng = (36, 36, 12, 8) if tier == "quick" else (1200, 1200, 300, 150)
+    for ty in ALL_SIGNED:
+        me, mc = edge_bounds(ty)
+        for _ in range(ne):
+            a, b = sgn(rng, edge_pick(rng, me)), sgn(rng, edge_pick(rng, me))
+            if rng.chance(1, 6) and a != 0:
+                k = rng.range(-4, 4)
+                b = a * k if abs(a * k) <= me else a
+            if a == 0 and b == 0:
+                b = me
+            g = gcdpy(a, b)
+            k = rng.below(6)
+            if k <= 1:
+                c = sgn(rng, g * wbelow(rng, me // g + 1))          # solvable, |c| <= Me
+            elif k == 2:
+                c = sgn(rng, g * (me // g))                         # the largest solvable right-hand side
+            elif k == 3:
+                c = sgn(rng, g * rng.range(0, min(3, me // g)))
+            else:
+                c = sgn(rng, edge_pick(rng, me))
+            cases.append({"ty": ty, "op": "egcd", "args": [a, b, c]})
+        for _ in range(nc):
+            m1, m2 = max(1, edge_pick(rng, mc)), max(1, edge_pick(rng, mc))
+            if rng.chance(1, 3):                                    # a planted common factor
+                g = max(1, rng.choice([2, 3, 4, 6, 10, edge_pick(rng, max(1, math.isqrt(mc)))]))
+                m1, m2 = max(1, m1 // g) * g, max(1, m2 // g) * g
+                m1, m2 = (m1 if m1 <= mc else g), (m2 if m2 <= mc else g)
+            a1, a2 = residue(rng, m1), residue(rng, m2)
+            if rng.chance(1, 2):
+                a2 = compatible_residue(rng, a1, m1, m2)
+            cases.append({"ty": ty, "op": "crt", "args": [a1, m1, a2, m2]})
+        for i in range(nl + ng):
+            a, b = sgn(rng, edge_pick(rng, me)), sgn(rng, edge_pick(rng, me))
+            if a == 0 and b == 0:
+                a = me
+            cases.append({"ty": ty, "op": "lcm" if i < nl else "gcd", "args": [a, b]})
+    return cases
+
+
+def fam_narrow_cube(rng, tier):
+    """G5: the i64 cube again on i8 and i16, every case whose reference trace stays inside the type (the Coq terms are
+    the ones of the i64 cube, so this costs executor time only); in the quick tier also a spread of the i8 cube of
+    radius 11 (egcd) / 10 (crt), which is exhaustive in the thorough tier"""
+    cases = []
+    K = 6 if tier == "quick" else 12
+    for ty in ("i8", "i16"):
+        for a in range(-K, K + 1):
+            for b in range(-K, K + 1):
+                cases.append({"ty": ty, "op": "gcd", "args": [a, b]})
+                if (a, b) == (0, 0):
+                    continue
+                cases.append({"ty": ty, "op": "lcm", "args": [a, b]})
+                for c in range(-K, K + 1):
+                    cases.append({"ty": ty, "op": "egcd", "args": [a, b, c]})
+        for m1 in range(1, K + 1):
+            for m2 in range(1, K + 1):
+                for a1 in range(m1):
+                    for a2 in range(m2):
+                        cases.append({"ty": ty, "op": "crt", "args": [a1, m1, a2, m2]})
+    cases = [c for c in cases if in_contract(c)]
+    if tier == "quick":
+        for _ in range(300):
+            a, b, c = rng.range(-11, 11), rng.range(-11, 11), rng.range(-11, 11)
+            if max(abs(a), abs(b), abs(c)) > 6 and (a, b) != (0, 0):
+                cases.append({"ty": "i8", "op": "egcd", "args": [a, b, c]})
+        for _ in range(150):
+            m1, m2 = rng.range(1, 10), rng.range(1, 10)
+            if max(m1, m2) > 6:
+                cases.append({"ty": "i8", "op": "crt", "args": [rng.below(m1), m1, rng.below(m2), m2]})
+    return cases
+
+
+def fam_traced(rng, tier):
+    """G1.3: signed egcd / crt over the WHOLE range of every signed type, keeping exactly the inputs for which no
+    intermediate value of the reference algorithm (Python transcription of the Rust text = C11/Trace.v) leaves the
+    type: the property's own quantifier.  Operands far above isqrt(MAX), unbalanced and non-coprime moduli whose
+    product does not fit but whose lcm does."""
+    cases = []
+    n = 40 if tier == "quick" else 1500
+    for ty in ALL_SIGNED:
+        top = tmax(ty)
+        me, mc = edge_bounds(ty)
+        got, tries = 0, 0
+        while got < n and tries < 40 * n:
+            tries += 1
+            a, b = sgn(rng, logu(rng, top)), sgn(rng, logu(rng, top))
+            k = rng.below(8)
+            if k == 0 and a != 0:
+                b = sgn(rng, abs(a) // rng.range(1, 9))
+            elif k == 1:
+                g = logu(rng, top)
+                if g:
+                    a, b = sgn(rng, g * logu(rng, top // g)), sgn(rng, g * logu(rng, top // g))
+            elif k == 2:
+                a = sgn(rng, top - rng.below(min(top, 50)))
+            if a == 0 and b == 0:
+                continue
+            g = gcdpy(a, b)
+            big = max(abs(a), abs(b)) // g
+            k = rng.below(7)
+            if k <= 1:
+                c = g * rng.range(-3, 3)
+            elif k == 2:
+                c = sgn(rng, g * logu(rng, max(1, top // max(1, big))))      # as large a multiplier as can fit
+            elif k == 3:
+                c = sgn(rng, logu(rng, top))
+            elif k == 4:
+                c = 0
+            elif k == 5:
+                c = sgn(rng, rng.range(0, 30))
+            else:
+                c = sgn(rng, g)
+            cs = {"ty": ty, "op": "egcd", "args": [a, b, c]}
+            if abs(c) <= top and in_contract(cs):
+                cases.append(cs)
+                got += 1
+        got, tries = 0, 0
+        while got < n and tries < 40 * n:
+            tries += 1
+            k = rng.below(6)
+            if k == 0:
+                m1 = logu(rng, top)
+                m2 = logu(rng, top // max(1, m1))
+            elif k == 1:                       # large common factor: product overflows, lcm fits
+                g = max(1, logu(rng, top))
+                lim = max(1, math.isqrt(top // g))
+                m1, m2 = g * max(1, logu(rng, lim)), g * max(1, logu(rng, lim))
+            elif k == 2:                       # just above the proved box
+                m1, m2 = mc + rng.range(0, 3), mc - rng.range(0, 40)
+            elif k == 3:                       # one modulus divides the other
+                m2 = max(1, logu(rng, top))
+                m1 = m2 * max(1, logu(rng, top // m2))
+            elif k == 4:                       # unbalanced: a huge and a tiny modulus
+                m2 = rng.range(1, 12)
+                m1 = top // m2 - rng.below(50)
+            else:
+                m1, m2 = logu(rng, top), logu(rng, top)
+            m1, m2 = max(1, m1), max(1, m2)
+            if m1 > top or m2 > top:
+                continue
+            if rng.chance(1, 2):
+                m1, m2 = m2, m1
+            a1, a2 = residue(rng, m1), residue(rng, m2)
+            if rng.chance(2, 3):
+                a2 = compatible_residue(rng, a1, m1, m2)
+            cs = {"ty": ty, "op": "crt", "args": [a1, m1, a2, m2]}
+            if in_contract(cs):
+                cases.append(cs)
+                got += 1
+    return cases
+
+
+# ----------------------------------------------------------------------------- G2/G3: all magnitudes, word boundaries
+BOUNDARY_K = [7, 8, 15, 16, 31, 32, 33, 63, 64, 65, 127]
+
+
+def fam_wide(rng, tier):
+    """gcd (and lcm when it fits) on all 12 types with log-uniform magnitudes drawn from a multi-word generator
+    (Rng.below alone never exceeds 2^64), word-boundary constants 2^k, 2^k +- 1, MAX, MAX-1, -MAX; for the 128-bit
+    types pairs of independent two-word operands, also with a planted two-word common factor"""
+    cases = []
+    n = 60 if tier == "quick" else 1500
+    for ty in ALL_UNSIGNED + ALL_SIGNED:
+        signed = ty[0] == "i"
+        top = tmax(ty)
+        w = W[ty]
+        bnd = sorted({v for k in BOUNDARY_K for v in ((1 << k) - 1, 1 << k, (1 << k) + 1) if v <= top}
+                     | {top, top - 1, top // 2, top // 2 + 1, top // 2 + 2, top // 4, top // 4 + 1, top // 4 + 2, top - top // 3})
+        def pick():
+            k = rng.below(8)
+            if k == 0:
+                return rng.choice(bnd)
+            if k == 1:
+                return rng.range(0, 40)
+            if k == 2 and w >= 64:
+                return (1 << (w // 2)) + wbelow(rng, top - (1 << (w // 2)))     # upper half of the words in use
+            return logu(rng, top)
+        for i in range(n):
+            a, b = pick(), pick()
+            k = rng.below(8)
+            if k == 0:                               # a planted common factor of any size
+                g = max(1, logu(rng, top))
+                a, b = g * logu(rng, top // g), g * logu(rng, top // g)
+            elif k == 1 and w == 128:                # a two-word common factor times small cofactors
+                g = (1 << 64) + wbelow(rng, 1 << 60)
+                a, b = g * rng.range(1, (top // g)), g * rng.range(1, (top // g))
+            elif k == 2 and a != 0:
+                b = a // rng.range(1, 5)
+            elif k == 3 and a != 0:
+                m = rng.range(0, 3)
+                b = a * m if a * m <= top else a
+            elif k == 4:                             # lcm close to MAX: lcm(MAX // k, k)
+                kk = rng.range(1, 40)
+                a, b = top // kk, kk
+            a, b = sgn(rng, a, signed), sgn(rng, b, signed)
+            cases.append({"ty": ty, "op": "gcd", "args": [a, b]})
+            if rng.chance(1, 2):
+                cases.append({"ty": ty, "op": "gcd", "args": [b, a]})
+            g = gcdpy(a, b)
+            if g != 0 and abs(a) // g * abs(b) <= top:
+                cases.append({"ty": ty, "op": "lcm", "args": [a, b]})
+    return cases
+
+
+# ----------------------------------------------------------------------------- G4: worst-case Euclid
+def fam_fib(rng, tier):
+    """consecutive Fibonacci numbers, the inputs with the most division steps / the deepest egcd recursion that a type
+    admits (u64: 91 steps, u128: 184): gcd on all 12 types, egcd (signed, c = +-1, small) and crt whenever the
+    reference trace stays inside the type"""
+    cases = []
+    for ty in ALL_UNSIGNED + ALL_SIGNED:
+        signed = ty[0] == "i"
+        top = tmax(ty)
+        fs = [1, 2]
+        while fs[-1] + fs[-2] <= top:
+            fs.append(fs[-1] + fs[-2])
+        ks = list(range(len(fs) - 1))
+        if tier == "quick":
+            ks = [k for k in ks if k >= len(fs) - 7 or k % 6 == 0]
+        for k in ks:
+            lo, hi = fs[k], fs[k + 1]
+            for (a, b) in ((lo, hi), (hi, lo)):
+                if tier == "quick":
+                    cases.append({"ty": ty, "op": "gcd", "args": [sgn(rng, a, signed), sgn(rng, b, signed)]})
+                else:
+                    for sa in ((1, -1) if signed else (1,)):
+                        for sb in ((1, -1) if signed else (1,)):
+                            cases.append({"ty": ty, "op": "gcd", "args": [sa * a, sb * b]})
+                if signed:
+                    for c in ([sgn(rng, 1)] if tier == "quick" else [1, -1, 0, sgn(rng, rng.range(2, 9))]):
+                        cs = {"ty": ty, "op": "egcd", "args": [sgn(rng, a), sgn(rng, b), c]}
+                        if in_contract(cs):
+                            cases.append(cs)
+                    cs = {"ty": ty, "op": "crt", "args": [residue(rng, a), a, residue(rng, b), b]}
+                    if in_contract(cs):
+                        cases.append(cs)
+                    # Lucas-like neighbours: long quotient sequences with a few quotients other than 1
+                    cs = {"ty": ty, "op": "egcd", "args": [sgn(rng, a), sgn(rng, max(1, b - rng.range(1, 3))), sgn(rng, 1)]}
+                    if tier != "quick" and in_contract(cs):
+                        cases.append(cs)
+    return cases
+
+
+# ----------------------------------------------------------------------------- G6: unsigned egcd where it is defined
+def fam_uegcd(rng, tier):
+    """egcd on the 6 unsigned types for the inputs on which x0 - q*y0 never goes below zero (first coefficient zero,
+    one coefficient dividing the other, right-hand side zero, unsolvable right-hand sides, and whatever else the
+    reference trace accepts)"""
+    cases = []
+    n = 30 if tier == "quick" else 500
+    for ty in ALL_UNSIGNED:
+        top = tmax(ty)
+        got, tries = 0, 0
+        while got < n and tries < 60 * n:
+            tries += 1
+            k = rng.below(8)
+            small = rng.chance(1, 2)
+            pick = (lambda: rng.range(0, 40)) if small else (lambda: logu(rng, top))
+            if k == 0:
+                a, b = 0, max(1, pick())
+            elif k == 1:
+                a = max(1, pick())
+                b = a * logu(rng, top // a)
+            elif k == 2:
+                b = max(1, pick())
+                a = b * logu(rng, top // b)
+            else:
+                a, b = pick(), pick()
+            if a == 0 and b == 0:
+                continue
+            g = gcdpy(a, b)
+            kc = rng.below(5)
+            if kc == 0:
+                c = 0
+            elif kc == 1:
+                c = g * logu(rng, top // g)
+            elif kc == 2:
+                c = g * rng.range(0, 5)
+            elif kc == 3:
+                c = g
+            else:
+                c = pick()
+            cs = {"ty": ty, "op": "egcd", "args": [a, b, c]}
+            if c <= top and in_contract(cs):
+                cases.append(cs)
+                got += 1
+    return cases
+
+
+def fam_zero(rng, tier):
+    """the division-by-zero corner on every instantiation (outside the property; modelled as Panic)"""
+    cases = []
+    for ty in ALL_UNSIGNED + ALL_SIGNED:
+        cases.append({"ty": ty, "op": "lcm", "args": [0, 0]})
+        cases.append({"ty": ty, "op": "egcd", "args": [0, 0, rng.range(0, 9)]})
+        cases.append({"ty": ty, "op": "gcd", "args": [0, 0]})
+    return cases
+
+
+FAMILIES = [("base", fam_base), ("edge", fam_edge), ("narrow_cube", fam_narrow_cube), ("traced", fam_traced),
+            ("wide", fam_wide), ("fib", fam_fib), ("uegcd", fam_uegcd), ("zero", fam_zero)]
+
+
+def generate(rng, tier):
+    cases, counts = [], {}
+    for name, fn in FAMILIES:
+        cs = fn(rng if name == "base" else rng.fork("fam-" + name), tier)
+        counts[name] = len(cs)
+        cases += cs
+    FAMILY_COUNTS.setdefault(tier, counts)
+    return cases
 
 
 def shrink(c):
     out = []
     args = c["args"]
+    inside = in_contract(c)
     for i, v in enumerate(args):
         for w in {0, v // 2, v - 1 if v > 0 else v + 1, -v if v < 0 else v}:
             if w != v:
@@ -215,10 +770,107 @@ def shrink(c):
                 if c["op"] == "crt":
                     if not (0 <= n[0] < n[1] and 0 <= n[2] < n[3]):
                         continue
-                out.append(dict(c, args=n))
-    if c["ty"] != "i64" and c["ty"] in SIGNED:
+                cand = dict(c, args=n)
+                # a case inside the contract is only shrunk to cases inside the contract (an overflowing intermediate
+                # of the reference algorithm is not a finding)
+                if inside and not in_contract(cand):
+                    continue
+                out.append(cand)
+    if c["ty"] != "i64" and c["ty"][0] == "i":
         out.append(dict(c, ty="i64"))
     return out
+
+
+# ----------------------------------------------------------------------------- implementation-level exhaustive sweep
+def obs_of(res):
+    if res == "P":
+        return "P"
+    if res is None:
+        return "R none"
+    return "R %d %d" % res if isinstance(res, tuple) else "R %d" % res
+
+
+def property_holds(case, obs):
+    """the specification itself (not the reference algorithm), decided in Python on one observation"""
+    op, a = case["op"], case["args"]
+    t = obs.split()
+    if t[0] == "P":
+        return False
+    if op == "gcd":
+        return int(t[1]) == math.gcd(a[0], a[1])
+    if op == "lcm":
+        return int(t[1]) == abs(a[0]) // math.gcd(a[0], a[1]) * abs(a[1])
+    if op == "egcd":
+        solvable = a[2] % math.gcd(a[0], a[1]) == 0
+        if t[1] == "none":
+            return not solvable
+        return solvable and a[0] * int(t[1]) + a[1] * int(t[2]) == a[2]
+    g = math.gcd(a[1], a[3])
+    compatible = (a[2] - a[0]) % g == 0
+    if t[1] == "none":
+        return not compatible
+    x = int(t[1])
+    return compatible and 0 <= x < a[1] // g * a[3] and x % a[1] == a[0] and x % a[3] == a[2]
+
+
+def sweep_cases(tier):
+    """ALL pairs of u8 and of i8 (MIN excluded) for gcd, and for lcm when the result fits; in the thorough tier also
+    i8 egcd over all coefficient pairs with |c| <= 8 and i8 crt over all pairs of moduli with four residue pairs each,
+    whenever the reference trace stays inside i8"""
+    cases = []
+    for ty, lo, hi in (("u8", 0, 255), ("i8", -127, 127)):
+        for a in range(lo, hi + 1):
+            for b in range(lo, hi + 1):
+                cases.append({"ty": ty, "op": "gcd", "args": [a, b]})
+                if (a, b) != (0, 0):
+                    cases.append({"ty": ty, "op": "lcm", "args": [a, b]})
+    if tier != "quick":
+        for a in range(-127, 128):
+            for b in range(-127, 128):
+                if (a, b) != (0, 0):
+                    for c in range(-8, 9):
+                        cases.append({"ty": "i8", "op": "egcd", "args": [a, b, c]})
+        for m1 in range(1, 128):
+            for m2 in range(1, 128):
+                g = math.gcd(m1, m2)
+                for a1, a2 in ((0, 0), (m1 - 1, m2 - 1), (m1 // 2, (m1 // 2) % g), (m1 - 1, 0)):
+                    cases.append({"ty": "i8", "op": "crt", "args": [a1, m1, a2 % m2, m2]})
+    return cases
+
+
+def extra(ctx, known):
+    """G8: exhaustive 8-bit sweeps on every build profile against the reference trace and the specification, both
+    evaluated in Python.  A search on the implementation; never counted as proof."""
+    import _driver
+    cases, exp = [], []
+    for c in sweep_cases(ctx.tier):
+        res, vals = trace_of(c)
+        if res != "P" and fits(vals, c["ty"]):
+            cases.append(c)
+            exp.append(obs_of(res))
+    lines = [harness_line(c) for c in cases]
+    viol = []
+    for profile in PROFILES:
+        outs = _driver.run_impl(ctx.bins[profile], lines)
+        bad = [(c, o, e) for c, o, e in zip(cases, outs, exp) if o != e]
+        if bad:
+            wrong = [t for t in bad if not property_holds(t[0], t[1])]
+            c, o, e = min(wrong or bad, key=lambda t: sum(abs(x) for x in t[0]["args"]))
+            viol.append({"name": "sweep8-%s-%s" % (c["ty"], c["op"]),
+                         "kind": "counterexample" if wrong else "broken-correspondence", "nofail": not wrong,
+                         "payload": {"what": "exhaustive 8-bit sweep: `%s` returned %r, the reference algorithm gives %r; %s "
+                                             "(%d of %d calls differ, profile %s)"
+                                             % (harness_line(c), o, e,
+                                                "the result violates the specification" if wrong else
+                                                "every differing result still satisfies the specification",
+                                                len(bad), len(lines), profile),
+                                     "case": c, "profile": profile, "impl_observation": o}})
+            break
+    cov = {"sweep8_calls_per_profile": len(lines), "sweep8_profiles": len(PROFILES)}
+    if FAMILY_COUNTS.get(ctx.tier):
+        cov["generated_per_family"] = FAMILY_COUNTS[ctx.tier]
+    return {"coverage": cov, "violations": viol}
+
 
 MANIFEST = {
     "text": "Theorems (Coq, no axioms) about an executable Gallina model of rlib_gcd over unbounded Z with truncating division: "
@@ -228,10 +880,13 @@ MANIFEST = {
             "[0, lcm) of a compatible system and None for an incompatible one; model_check implies spec_check on in-scope cases; "
             "instrumented variants (same results, proved) show every intermediate value is bounded by M*M (+M for crt) for "
             "operands up to M, hence below 2^62 for operands up to 2^20. The model is tied to the code on "
-            "every run: the executor runs gcd/lcm/egcd/crt from /repo on an exhaustive small cube plus boundary-biased samples "
-            "(7 integer types) and Coq proves model = implementation and implementation |= spec on every case.",
-    "level_note": "Trusted: Coq kernel + vm_compute; the Rust executor and the Python case printer; integers are unbounded Z "
-                  "(overflow is outside the property's quantifier: operands <= 2^20); theorems are about the model, the "
-                  "correspondence is sampled.",
+            "every run: the executor runs gcd/lcm/egcd/crt from /repo on an exhaustive small cube, boundary-biased samples, "
+            "operands at the edge of the proved no-overflow box (isqrt(MAX)) of every signed type, whole-range inputs whose "
+            "reference trace fits the type, word-boundary and multi-word operands, consecutive Fibonacci numbers (worst-case "
+            "Euclid), unsigned egcd where it is defined (12 integer types, debug and release builds), and Coq proves "
+            "model = implementation and implementation |= spec on every case; all 8-bit gcd/lcm pairs are swept against Python.",
+    "level_note": "Trusted: Coq kernel + vm_compute; the Rust executor and the Python case printer / reference-trace filter; "
+                  "integers are unbounded Z (overflow is outside the property's quantifier: cases stay where no intermediate "
+                  "of the reference algorithm overflows); theorems are about the model, the correspondence is sampled.",
     "technique": "Coq proof over Gallina model + vm_compute correspondence batches against the Rust crate",
 }
